@@ -159,6 +159,7 @@ pub fn formats() -> Vec<FormatDef> {
     vec![
         FormatDef {
             name: "wdl",
+            family: "wdl",
             entries: &["WdlParser::parse", "WdlFile::validate"],
             seeds: wdl_seeds,
             drive: wdl_drive,
@@ -168,6 +169,7 @@ pub fn formats() -> Vec<FormatDef> {
         },
         FormatDef {
             name: "wdt",
+            family: "wdt",
             entries: &["WdtReader::read", "WdtFile::validate"],
             seeds: wdt_seeds,
             drive: wdt_drive,
